@@ -64,6 +64,14 @@ ProjectionObject(f, ch) ==
 PlainObject(ch, S, C, map) ==
   IF ValidLayoutEnc(ch, S, C, map) THEN Object(ch, S, C, map, -1, MT_NONE) ELSE NoObject
 
+\* opus_multistream_surround_encoder_get_size = opus_multistream_encoder_get_size(S, C) plus, for more than two
+\* channels (whatever the family), 120 window samples and one pre-emphasis word of 4 bytes per channel
+SurroundExtraBytes(ch) == IF ch > 2 THEN ch * (120 * 4 + 4) ELSE 0
+
+\* ... and it answers 0 exactly for the (family, channels) pairs the create call refuses, except that it does not
+\* apply the 255-channel limit to family 255 (create does, before asking for the size)
+SurroundSizeNonZero(f, ch) == SurroundObject(f, ch).ok \/ (f = 255 /\ ch > 255)
+
 StreamChannels(L, s) == IF s < L.C THEN 2 ELSE 1            \* s 0-based
 
 \* OPUS_SET_BITRATE on the multistream object: what is stored (CV!MsClamp), and its domain
